@@ -17,6 +17,7 @@ package path
 //@     invariant [C16] len(acc) == #i && (forall k int :: 0 <= k && k < #i ==> acc[k] == buildF(source, v.body[k]))
 
 //@ func ParsePath(path string) (PropertyPath, error)
+//@   verify [C07]
 //@   ensures [C16:empty-is-null-path] path == "" ==> (result1 == nil && is(result0, path.NullPath) && result0.(path.NullPath).source == "")
 //@   ensures [C16:error-or-path] path != "" ==> (result1 != nil ==> result0 == nil)
 
@@ -33,6 +34,7 @@ package path
 
 //@ func newParser(filename string, b []byte, opts ...Option) *parser
 //@   assumed
+//@   requires [C16,C07:default-options] len(opts) == 0
 //@   ensures [C17:A-PEG] result != nil
 
 //@ func (p *parser) parse(g *grammar) (val any, err error)
